@@ -425,6 +425,40 @@ func init() {
 		q.Next()
 		sink = int64(uintptr(q.Get(d.ID[op.Add[0]])))
 	})
+	addMisuse("debugguard", "UnsafeQuery.Next after Close in the middle of a table", func(d *Drv, op *Op, h, _ ecs.Entity) {
+		// an archetype whose first non-empty table holds at least two entities: the query is closed after the first one
+		st := d.W.Stats()
+		for i := range st.Archetypes {
+			a := &st.Archetypes[i]
+			first := -1
+			for j := range a.Tables {
+				if a.Tables[j].Size > 0 {
+					first = a.Tables[j].Size
+					break
+				}
+			}
+			if first < 2 || len(a.ComponentIDs) == 0 {
+				continue
+			}
+			var ids []ecs.ID
+			for _, idx := range a.ComponentIDs {
+				for c := 0; c < u.N; c++ {
+					if d.ID[c].Index() == idx {
+						ids = append(ids, d.ID[c])
+					}
+				}
+			}
+			if len(ids) != len(a.ComponentIDs) {
+				continue
+			}
+			q := ecs.NewUnsafeFilter(d.W, ids...).Exclusive().Query()
+			q.Next()
+			q.Close()
+			q.Next() // the query is finished: continuing is access after the end of the iteration
+			return
+		}
+		panic(skipMisuse{})
+	})
 	addMisuse("debugguard", "UnsafeQuery.Entity before Next", func(d *Drv, op *Op, h, _ ecs.Entity) {
 		q := ecs.NewUnsafeFilter(d.W).Query()
 		defer q.Close()
